@@ -1457,7 +1457,7 @@ func rtExecute(a *aggregator, v *rtView) {
 				o := info.Uses[id]
 				for _, nm := range []string{"text", "begin", "end"} {
 					if o != nil && o == objs[nm] {
-						if !isPegText && v.in.repo == nil {
+						if !isPegText && v.in.repo == nil && v.in.canonOf == nil {
 							// representative action bodies of the model never assign these; in peg.peg.go user code could
 							bad = append(bad, fmt.Sprintf("%s assigned outside the rulePegText case", nm))
 						}
